@@ -20,6 +20,43 @@ def ring_class(check):
   return check.repo.cls('carbon.hashing', 'ConsistentHashRing')
 
 
+def _bump_by_one(w, pos):
+  """the loop body is exactly `pos += 1` / `pos = pos + 1`"""
+  return len(w.body) == 1 and (
+    (isinstance(w.body[0], ast.AugAssign) and isinstance(w.body[0].op, ast.Add) and dotted(w.body[0].target) == pos and
+     isinstance(w.body[0].value, ast.Constant) and w.body[0].value.value == 1) or
+    (isinstance(w.body[0], ast.Assign) and unparse(w.body[0].value).replace(' ', '') in ('%s+1' % pos, '1+%s' % pos) and
+     dotted(w.body[0].targets[0]) == pos))
+
+
+def _any_entry_at(t, add):
+  """name P when t is `any(P == <position of e> for e in self.ring)` (entry bound to a name or destructured), else None"""
+  if not (isinstance(t, ast.Call) and isinstance(t.func, ast.Name) and t.func.id == 'any' and len(t.args) == 1 and not t.keywords and
+          isinstance(t.args[0], (ast.GeneratorExp, ast.ListComp)) and len(t.args[0].generators) == 1):
+    return None
+  gen = t.args[0].generators[0]
+  if gen.ifs or dotted(gen.iter) != '%s.ring' % add.params[0]:
+    return None
+  e = t.args[0].elt
+  if not (isinstance(e, ast.Compare) and len(e.ops) == 1 and isinstance(e.ops[0], ast.Eq)):
+    return None
+
+  def is_pos0(x):
+    tg = gen.target
+    if isinstance(tg, ast.Name):
+      return isinstance(x, ast.Subscript) and isinstance(x.value, ast.Name) and x.value.id == tg.id and \
+        isinstance(x.slice, ast.Constant) and x.slice.value == 0
+    if isinstance(tg, (ast.Tuple, ast.List)) and tg.elts and isinstance(tg.elts[0], ast.Name):
+      return isinstance(x, ast.Name) and x.id == tg.elts[0].id and [y.id for y in tg.elts if isinstance(y, ast.Name)].count(x.id) == 1
+    return False
+  for a_, b_ in ((e.left, e.comparators[0]), (e.comparators[0], e.left)):
+    if isinstance(a_, ast.Name) and is_pos0(b_):
+      bound = {y.id for y in ast.walk(gen.target) if isinstance(y, ast.Name)}
+      if a_.id not in bound:
+        return a_.id
+  return None
+
+
 def rule_local_mutation(check, cx, rule):
   """add_node only inserts entries of the new node; remove_node only filters out the leaving node's entries."""
   rc = ring_class(check)
@@ -72,12 +109,31 @@ def rule_local_mutation(check, cx, rule):
         if isinstance(n, ast.Assign) and isinstance(n.value, ast.ListComp) and len(n.value.generators) == 1:
           gen = n.value.generators[0]
           key = m.params[1]
-          tv = gen.target.id if isinstance(gen.target, ast.Name) else None
-          cond_ok = len(gen.ifs) == 1 and isinstance(gen.ifs[0], ast.Compare) and isinstance(gen.ifs[0].ops[0], ast.NotEq) and \
-            key in {x.id for x in ast.walk(gen.ifs[0]) if isinstance(x, ast.Name)} and \
-            unparse(gen.ifs[0].left).replace(' ', '') in ('%s[1]' % tv, key) and dotted(gen.iter) == 'self.ring'
-          elt_ok = isinstance(n.value.elt, ast.Name) and n.value.elt.id == tv
-          good = cond_ok and elt_ok
+
+          def part(e):
+            """'whole' / index of the ring entry's component that e denotes (entry bound to a name or destructured)"""
+            tg = gen.target
+            if isinstance(tg, ast.Name):
+              if isinstance(e, ast.Name) and e.id == tg.id:
+                return 'whole'
+              if isinstance(e, ast.Subscript) and isinstance(e.value, ast.Name) and e.value.id == tg.id and \
+                 isinstance(e.slice, ast.Constant) and isinstance(e.slice.value, int):
+                return e.slice.value
+            elif isinstance(tg, (ast.Tuple, ast.List)) and all(isinstance(x, ast.Name) for x in tg.elts):
+              names = [x.id for x in tg.elts]
+              if isinstance(e, ast.Name) and names.count(e.id) == 1:
+                return names.index(e.id)
+              if isinstance(e, (ast.Tuple, ast.List)) and [part(x) for x in e.elts] == list(range(len(names))) and len(names) == 2:
+                return 'whole'
+            return None
+          cond_ok = False
+          if len(gen.ifs) == 1 and isinstance(gen.ifs[0], ast.Compare) and len(gen.ifs[0].ops) == 1 and \
+             isinstance(gen.ifs[0].ops[0], ast.NotEq) and dotted(gen.iter) == 'self.ring' and not gen.is_async:
+            l, r = gen.ifs[0].left, gen.ifs[0].comparators[0]
+            for a_, b_ in ((l, r), (r, l)):
+              if part(a_) == 1 and isinstance(b_, ast.Name) and b_.id == key:
+                cond_ok = True
+          good = cond_ok and part(n.value.elt) == 'whole'
         elif isinstance(n, ast.Assign) and isinstance(n.value, ast.Name):
           good = _filter_loop(cx, m, n)
         if good:
@@ -321,7 +377,16 @@ def run(check):
       r_b.violate('replica count', init, None, 'the default replica_count is %s, the published ring uses 100'
                   % (unparse(rcnt) if rcnt is not None else 'missing'), construct='replica_count default')
     loop = [n for n in walk_no_nested(rc.methods['add_node'].node, include_self=False) if isinstance(n, ast.For)] if add else []
-    if loop and unparse(loop[0].iter).replace(' ', '') in ('range(self.replica_count)', 'xrange(self.replica_count)'):
+    replica_loop = False
+    if loop:
+      from ..paths import mentions
+      RANGE = ('call', 'range', ('attr', ('param', add.params[0]), 'replica_count'))
+      its = alternatives(ValueNumbers(cx, add, multi=True).term(loop[0].iter, loop[0]))
+      # range(self.replica_count) itself, or an unfiltered comprehension over it (one replica key per index)
+      replica_loop = bool(its) and all(
+        t == RANGE or (isinstance(t, tuple) and t[0] == 'comp' and len(t) == 3 and t[2] == () and mentions(t[1], lambda x: x == ('elem', RANGE)))
+        for t in its)
+    if replica_loop:
       r_b.ok('one ring entry per replica index 0..replica_count-1', add.loc(loop[0]))
     else:
       r_b.violate('replica loop', add, loop[0] if loop else None, 'add_node does not create one entry for each replica index in '
@@ -331,6 +396,14 @@ def run(check):
     okb = False
     for w in whiles:
       t = w.test
+      anyform = _any_entry_at(t, add)
+      if anyform is not None:
+        # while any(position == <position of e> for e in self.ring): the ring is scanned afresh at every test
+        pos = anyform
+        if _bump_by_one(w, pos):
+          okb = True
+          r_b.ok('collision handling: while the position is taken by any ring entry, position += 1 (published behaviour)', add.loc(w))
+        continue
       if isinstance(t, ast.Compare) and len(t.ops) == 1 and isinstance(t.ops[0], ast.In) and isinstance(t.left, ast.Name):
         pos = t.left.id
         c = t.comparators[0]
@@ -362,11 +435,7 @@ def run(check):
               pos_t = ent_t[1] if isinstance(ent_t, tuple) and ent_t[0] == 'tuple' and len(ent_t) == 3 else None
               maintained = pos_t is not None and vn.term(adds_[0].value.args[0], adds_[0]) == pos_t and pos_t == vn.term(t.left, inserts[0])
           all_positions = recomputed or maintained
-        body_ok = len(w.body) == 1 and (
-          (isinstance(w.body[0], ast.AugAssign) and isinstance(w.body[0].op, ast.Add) and dotted(w.body[0].target) == pos and
-           isinstance(w.body[0].value, ast.Constant) and w.body[0].value.value == 1) or
-          (isinstance(w.body[0], ast.Assign) and unparse(w.body[0].value).replace(' ', '') in ('%s+1' % pos, '1+%s' % pos) and
-           dotted(w.body[0].targets[0]) == pos))
+        body_ok = _bump_by_one(w, pos)
         if all_positions and body_ok:
           okb = True
           r_b.ok('collision handling: while the position is taken by any ring entry, position += 1 (published behaviour)', add.loc(w))
